@@ -20,7 +20,7 @@
 From Coq Require Import List NArith ZArith Bool Arith Lia Permutation DecimalFacts DecimalNat.
 From JV Require Bridge BridgeProofs.
 From JV Require Import HttpChan HttpChanProofs SameResults.
-From JV Require Import Bytes Msg CliModel CliLemmas CliInv CliProofs CliCtx CliOps CliHist CliSend CliFed CliNoStop SameResultsCli.
+From JV Require Import Bytes Msg CliModel CliLemmas CliInv CliProofs CliCtx CliOps CliHist CliSend CliFed CliNoStop CliSendLog SameResultsCli.
 Import ListNotations.
 
 (** * glue *)
@@ -335,4 +335,107 @@ Proof.
   assert (E2 : err s2 = None).
   { apply (never_closed_never_stops c2 tr2 s2 T2). apply good_labels; auto. rewrite F2. exact G2. }
   exact (same_results_bridge body htr hs c1 tr1 s1 c2 tr2 s2 R NC AD T1 T2 F1 F2 B n o1 o2 Ho1 Ho2 X1 X2 E1 E2 Ids).
+Qed.
+
+(** * the coupling stated on the runs: the j-th Send of the client's run is round trip j *)
+(* [sendlog (init_of c) tr] (CliSendLog.v): the operations whose Send put a record on the transport, in order.
+   One HSend per entry; the response of round trip j is the Bridge's answer to the record of the j-th entry. *)
+Definition sends_answered_by_bridge (c : config) (tr : list CliModel.label) (s : CliModel.state)
+           (htr : list HttpChan.label) (body : nat -> inbound) : Prop :=
+  exists (inner : N -> list Bridge.spec -> list Bridge.reply) (next : nat -> N) (bflag : nat -> bool),
+    BridgeProofs.inner_ok inner
+    /\ length (sendlog (init_of c) tr) = n_send htr
+    /\ forall j n, nth_error (sendlog (init_of c) tr) j = Some n ->
+         exists o st, op_at s n = Some o
+           /\ bridge_answer inner (next j) (op_request (bflag j) s o) = Some (st, body j)
+           /\ do_result htr j = DoStatus st.
+
+Theorem sends_are_round_trips c tr s htr body :
+  traces_to c tr s -> sends_answered_by_bridge c tr s htr body -> bridge_round_trips s htr body.
+Proof.
+  intros T (inner & next & bflag & Hin & Len & Rt). destruct (sendlog_spec c tr s T) as [ND Hlog].
+  set (log := sendlog (init_of c) tr) in *.
+  exists (fun j => nth j log 0), inner, next, bflag. split; [exact Hin|]. split.
+  - intros j j' Hj Hj' E. rewrite <- Len in Hj, Hj'. exact (proj1 (NoDup_nth log 0) ND j j' Hj Hj' E).
+  - intros j Hj. rewrite <- Len in Hj. assert (E := nth_error_nth' log 0 Hj).
+    destruct (Rt j _ E) as (o & st & Ho & Ea & Ed). exists o, st. split; [exact Ho|]. split; [|split; auto].
+    destruct (Hlog _ (nth_error_In _ _ E)) as (o' & Ho' & _ & L). rewrite Ho in Ho'. injection Ho' as <-. exact L.
+Qed.
+
+(* C18 composed with the client's own discipline: every reply record answers exactly the ids of the request
+   record its round trip carried, and these belong to one operation each *)
+Theorem sends_answer_own_requests c tr s htr body :
+  traces_to c tr s -> sends_answered_by_bridge c tr s htr body -> replies_answer_own_requests s htr body.
+Proof.
+  intros T B. apply (bridge_answers_own_requests c tr s htr body T). exact (sends_are_round_trips c tr s htr body T B).
+Qed.
+
+(* THE PROPERTY.  [htr]: any run of the jhttp.Channel model in which the channel stays open and all round trips
+   are done (responses handed to Recv in ANY order).  [tr1]: any run of the client model (any configuration, any
+   schedule) whose transport is that channel: its j-th successful Send is round trip j, answered by the Bridge
+   model (any handlers: any inner_ok inner), and it is fed what Recv yields, in that order.  [tr2]: any run of the
+   client model (any configuration, any schedule) fed the same reply records in request order, as over a direct
+   connection.  Neither run closes the client.  Then every operation that put the same ids on its requests in
+   both runs, and whose context did not end, returned in both runs the same value if it returned in both. *)
+Theorem same_results body htr hs c1 tr1 s1 c2 tr2 s2 :
+  HttpChan.run HttpChan.init htr = Some hs -> ~ In HClose htr -> forallb is_done (gs hs) = true ->
+  traces_to c1 tr1 s1 -> traces_to c2 tr2 s2 ->
+  feeds tr1 = http_feeds body htr -> feeds tr2 = direct_feeds body htr ->
+  sends_answered_by_bridge c1 tr1 s1 htr body ->
+  Forall not_close tr1 -> Forall not_close tr2 ->
+  forall n o1 o2, op_at s1 n = Some o1 -> op_at s2 n = Some o2 ->
+    o_ctx o1 = None -> o_ctx o2 = None ->
+    op_ids s1 n = op_ids s2 n ->
+    (forall r1 r2, In (ORet n (RetCall r1)) (hist s1) -> In (ORet n (RetCall r2)) (hist s2) -> r1 = r2)
+    /\ (forall rs1 rs2, In (ORet n (RetBatch rs1)) (hist s1) -> In (ORet n (RetBatch rs2)) (hist s2) -> rs1 = rs2).
+Proof.
+  intros R NC AD T1 T2 F1 F2 B.
+  apply (same_results_bridge_open body htr hs c1 tr1 s1 c2 tr2 s2 R NC AD T1 T2 F1 F2).
+  exact (sends_are_round_trips c1 tr1 s1 htr body T1 B).
+Qed.
+
+(* the same with Close operations allowed, for operations that returned while the client was not stopped *)
+Theorem same_results_if_not_stopped body htr hs c1 tr1 s1 c2 tr2 s2 :
+  HttpChan.run HttpChan.init htr = Some hs -> ~ In HClose htr -> forallb is_done (gs hs) = true ->
+  traces_to c1 tr1 s1 -> traces_to c2 tr2 s2 ->
+  feeds tr1 = http_feeds body htr -> feeds tr2 = direct_feeds body htr ->
+  sends_answered_by_bridge c1 tr1 s1 htr body ->
+  forall n o1 o2, op_at s1 n = Some o1 -> op_at s2 n = Some o2 ->
+    o_ctx o1 = None -> o_ctx o2 = None -> err s1 = None -> err s2 = None ->
+    op_ids s1 n = op_ids s2 n ->
+    (forall r1 r2, In (ORet n (RetCall r1)) (hist s1) -> In (ORet n (RetCall r2)) (hist s2) -> r1 = r2)
+    /\ (forall rs1 rs2, In (ORet n (RetBatch rs1)) (hist s1) -> In (ORet n (RetBatch rs2)) (hist s2) -> rs1 = rs2).
+Proof.
+  intros R NC AD T1 T2 F1 F2 B.
+  apply (same_results_bridge body htr hs c1 tr1 s1 c2 tr2 s2 R NC AD T1 T2 F1 F2).
+  exact (sends_are_round_trips c1 tr1 s1 htr body T1 B).
+Qed.
+
+(* non-vacuity of the premises of [same_results] on the example above *)
+Example same_results_nonvacuous :
+  exists hs s1 s2,
+    HttpChan.run HttpChan.init ex_htr = Some hs /\ ~ In HClose ex_htr /\ forallb is_done (gs hs) = true
+    /\ traces_to ex_cfg ex_tr_http s1 /\ traces_to ex_cfg ex_tr_direct s2
+    /\ feeds ex_tr_http = http_feeds ex_body ex_htr /\ feeds ex_tr_direct = direct_feeds ex_body ex_htr
+    /\ sendlog (init_of ex_cfg) ex_tr_http = [0; 1]
+    /\ sends_answered_by_bridge ex_cfg ex_tr_http s1 ex_htr ex_body
+    /\ Forall not_close ex_tr_http /\ Forall not_close ex_tr_direct
+    /\ recv_stream ex_htr = [(1, DoStatus 200); (0, DoStatus 200)]
+    /\ direct_stream ex_htr = [(0, DoStatus 200); (1, DoStatus 200)].
+Proof.
+  destruct (HttpChan.run HttpChan.init ex_htr) as [hs|] eqn:Eh; [|revert Eh; vm_compute; discriminate].
+  destruct (run (init_of ex_cfg) ex_tr_http) as [[s1 oss1]|] eqn:E1; [|revert E1; vm_compute; discriminate].
+  destruct (run (init_of ex_cfg) ex_tr_direct) as [[s2 oss2]|] eqn:E2; [|revert E2; vm_compute; discriminate].
+  exists hs, s1, s2. revert Eh E1 E2. vm_compute. intros Eh E1 E2. injection Eh as <-. injection E1 as <- <-. injection E2 as <- <-.
+  split; [reflexivity|]. split; [intros H; repeat (destruct H as [H|H]; [discriminate|]); exact H|].
+  split; [reflexivity|]. split; [eexists; reflexivity|]. split; [eexists; reflexivity|].
+  split; [reflexivity|]. split; [reflexivity|].
+  assert (L : sendlog (init_of ex_cfg) ex_tr_http = [0; 1]) by (vm_compute; reflexivity).
+  split; [exact L|]. split.
+  { exists ex_inner, (fun j => N.of_nat (2 * j + 1)), (fun j => negb (j =? 0)).
+    split; [apply BridgeProofs.table_inner_ok|]. split; [reflexivity|].
+    intros j n Hj. destruct j as [|[|j]]; cbn in Hj; [| |destruct j; discriminate]; injection Hj as <-.
+    - eexists; eexists. split; [reflexivity|]. split; vm_compute; reflexivity.
+    - eexists; eexists. split; [reflexivity|]. split; vm_compute; reflexivity. }
+  split; [repeat constructor|]. split; [repeat constructor|]. split; reflexivity.
 Qed.
